@@ -30,7 +30,10 @@ def r1(ctx):
     for d in b.defs()[li]:
         v = S(b._def_term(d, ()))
         (trues if v == '1' else falses).append(d)
-    period = fact_cmp('Ge', r'^Instant::elapsed\((last_ticket_time|Instant::now\(\))', r'^NETWORK_WAIT_PERIOD', names=True)
+    # the time of the last ticket: the Instant variable whose elapsed() is compared with the wait period (found through that use, not by name)
+    els = sorted({root_local(b, s.data['args'][0]) for s in b.calls(r'Instant::elapsed$')} - {None})
+    lt = one(els, 'the Instant variable read by elapsed() in spawner_task')
+    period = fact_cmp('Ge', r'^Instant::elapsed\((%s\b|Instant::now\(\))' % re.escape(b.locals[lt]['name']), r'^NETWORK_WAIT_PERIOD', names=True)
     n_guarded = 0
     for d in trues:
         if d[0] == 0 or not b.must_pass(d[0], lambda f: True):
@@ -40,7 +43,6 @@ def r1(ctx):
                   '%s:%s' % (b.file, b.blocks[d[0]]['stmts'][d[1]]['line']))
     ctx.check('spawner_task|ticket-grant-sites', len(trues) == 2 and n_guarded == 1, 'ticket grant sites: %d (guarded %d)' % (len(trues), n_guarded), sample=[len(trues), n_guarded])
     ctx.check('spawner_task|ticket-consumed', len(falses) == 1, 'has_ticket = false sites: %d' % len(falses), sample=len(falses))
-    lt = one([i for i, l in enumerate(b.locals) if l.get('name') == 'last_ticket_time'], 'last_ticket_time')
     resets = [d for d in b.defs()[lt] if d[0] != 0 and b.can_reach(ts.bb, d[0])]
     recv = [s.bb for s in b.calls(r'Receiver::recv$')]
     for d in falses:
